@@ -311,6 +311,14 @@ class PrepareAst:
                 for cond, expr in result.branches.items()
             ]
 
+            # different keys of the dictionary can denote the same value
+            # ("01" and BitVector[2]("01")), a VHDL selected assignment
+            # may not contain the same choice twice
+            for nr, (cond, _) in enumerate(branches):
+                assert not any(
+                    bool(cond == prev) for prev, _ in branches[:nr]
+                ), f"select_with: the choice '{cond}' appears more than once"
+
             return out.SelectWith(result.arg, branches, result.default)
 
         if isinstance(result, _Any):
